@@ -153,7 +153,7 @@ fn placed(rng: &mut Rng, world: &World, cfg: &GenCfg, g: &Gen, depth_left: usize
     let c = rng.weighted(&[3, 4, 5, 2]);
     match c {
         0 => {
-            let op = *rng.pick(&["~", "EX", "AX", "EF", "AG", "AF", "EG"]);
+            let op = if cfg.heavy_ops { *rng.pick(&["~", "EX", "AX", "EF", "AG", "AF", "EG"]) } else { *rng.pick(&["~", "EX", "AX", "EF", "AG"]) };
             F::un(op, placed(rng, world, cfg, g, depth_left - 1, scope))
         }
         1 => {
@@ -226,7 +226,7 @@ pub fn generate(rng: &Rng, world: &World) -> C12 {
     let mut r = rng.fork("c12.script");
     let mut cfg = crate::c04::gen_cfg(world, &mut r);
     cfg.pattern_weight = 6;
-    cfg.max_size = r.range(5, 14);
+    cfg.max_size = if crate::c04::big_model() { r.range(4, 8) } else { r.range(5, 14) };
     let plain_batch = r.chance(1, 4) || cfg.labels.is_empty();
     let world_for_gen = if plain_batch {
         cfg.labels.clear();
@@ -239,13 +239,13 @@ pub fn generate(rng: &Rng, world: &World) -> C12 {
     };
     let pool = Pool::generate(&mut r, &cfg);
     let g = Gen { cfg: &cfg, pool: &pool };
-    let n = r.weighted(&[0, 4, 4, 3, 2]);
+    let n = if crate::c04::big_model() { r.weighted(&[0, 4, 3]) } else { r.weighted(&[0, 4, 4, 3, 2]) };
     let mut batch: Vec<F> = Vec::new();
     while batch.len() < n {
         let c = if batch.is_empty() { 0 } else { r.weighted(&[6, 2, 1, 2, 1]) };
         let f = match c {
             0 => {
-                let depth = r.range(0, 3);
+                let depth = if crate::c04::big_model() { r.range(0, 2) } else { r.range(0, 3) };
                 let f = placed(&mut r, &world_for_gen, &cfg, &g, depth, &mut Vec::new());
                 if f.is_closed() && f.well_scoped() && f.quant_depth() <= cfg.max_depth.max(1) { f } else { attractor("x") }
             }
